@@ -196,6 +196,43 @@ def classify(out, workload, block, mode, cfg=None):
     return 'c01_output_mismatch', fields
 
 
+def aliased_named_modules(root):
+    """Module names (structureName) of objects that have two ports on one wire: the body emitted for the first such
+    object is specialised to that aliasing (wire names are keyed by wire object) although other instances share it."""
+    import py4hw.rtl_generation as rg
+    out = set()
+
+    def walk(o):
+        for c in o.children.values():
+            if hasattr(c, 'structureName'):
+                ws = [id(p.wire) for p in list(c.inPorts) + list(c.outPorts) if p.wire is not None]
+                if len(ws) != len(set(ws)):
+                    try:
+                        out.add(rg.getVerilogModuleName(c))
+                    except Exception:
+                        pass
+            walk(c)
+    walk(root)
+    return out
+
+
+def named_modules_on_path(root, inst_path):
+    import py4hw.rtl_generation as rg
+    names = []
+    o = root
+    for part in inst_path.split('/'):
+        n = part[2:] if part.startswith('i_') and part[2:] in o.children else part
+        if n not in o.children:
+            break
+        o = o.children[n]
+        if hasattr(o, 'structureName'):
+            try:
+                names.append(rg.getVerilogModuleName(o))
+            except Exception:
+                pass
+    return names
+
+
 def judge(run, des, out, workload, block, cfg, mode, case):
     run.ev()
     run.count('designs')
@@ -214,6 +251,23 @@ def judge(run, des, out, workload, block, cfg, mode, case):
     if out.mismatch is not None:
         key, fields = classify(out, workload, block, mode, cfg)
         m = out.mismatch
+        # where do the two sides part ways?
+        culprits = []
+        try:
+            culprits = cosim.localise(des, out.interp)
+        except Exception as e:
+            culprits = [dict(error=repr(e)[:100])]
+        case = dict(case, culprits=culprits[:6])
+        if key == 'c01_output_mismatch' and culprits and 'block' in culprits[0]:
+            fields['culprit_block'] = culprits[0]['block']
+            aliased = aliased_named_modules(des.dut)
+            onpath = set()
+            for c in culprits:
+                if 'inst' in c:
+                    onpath.update(named_modules_on_path(des.dut, c['inst']))
+            if aliased & onpath:
+                key = 'named_module_port_aliasing'
+                fields = dict(mechanism='body of a shared named module was emitted from an instance with two ports on one wire')
         run.violation(key, fields, dict(case, mismatch=m), expected=m['simulator'], observed=m['verilog'],
                       what='%s: output %s %s cycle %d: simulator %d, verilog %d' % (des.label, m['output'], m['when'], m['cycle'], m['simulator'], m['verilog']))
     if run.evaluations % 97 == 1:
@@ -321,14 +375,14 @@ def _specials(run, tier, seed, shard, deadline):
 
 def _random(run, tier, seed, shard, deadline):
     quick = tier == 'quick'
-    n = 150 if quick else 6000
+    n = 700 if quick else 8000
     idx = shard_slice(range(n), shard)
     for i in idx:
         if time.time() > deadline or run.too_many:
             break
         rnd = rng(seed, 'c01-random', i)
         g = dutgen.Gen(rnd, max_width=rnd.choice([8, 16, 16, 32]))
-        plan = g.plan(n_nodes=rnd.randint(3, 14) if quick else rnd.randint(3, 40), depth=rnd.randint(0, 2 if quick else 3))
+        plan = g.plan(n_nodes=rnd.randint(3, 24) if quick else rnd.randint(3, 40), depth=rnd.randint(0, 3))
         try:
             des = dutgen.instantiate(plan)
         except Exception as ex:
